@@ -3,7 +3,7 @@ from . import common as K
 TITLE = "unrepresentable input refused; write calls terminate: guards, chromosome order, parse errors, loop termination, blocking waits"
 EXPLANATION = (
     "The six precondition guards are decided equivalent to their reference comparisons over all order types and shown to precede every "
-    "state update; unknown chromosomes are refused before an id is allocated; the chromosome-order refusal, empty-input refusal and "
+    "state update; unknown chromosomes are refused before an id is allocated; the chromosome-order refusal, empty-input refusal (in the serial source and, for every source, in the writer once no chromosome id was handed out) and "
     "foreign-record refusal exist on the serial and parallel paths; every missing/unparsable column becomes an error value; every loop "
     "of the write path is classified as terminating (fail closed) and get_rtreeindex is shown to exit for every section count including 0; "
     "blocking waits on staging buffers are preceded by completion of the producing task; no Result is dropped; no unwrap on data-input-derived values.")
